@@ -129,12 +129,18 @@ func (x *Exec) callFn(fr *Frame, st *State, fn *ssa.Function, args []Value, bind
 		x.c.note("A-log: calls into logging/metrics packages have no effect on verified state")
 		return []Outcome{{St: st, Kind: OutReturn, Rets: rets}}
 	}
-	if fc := x.contracts[contractKey(fn)]; fc != nil && (fn != x.top || fr.depth > 0 || true) && !fc.Inline {
-		if !(fn == x.top && fr.depth == 0 && false) {
+	if fc := x.contracts[contractKey(fn)]; fc != nil && !fc.Inline {
+		// replay refinement: prefer the real body over the callee's contract where it can be inlined
+		inl := x.preferInline && !fc.Trusted && len(fn.Blocks) > 0 && fr.depth < x.maxInline+2 && !x.inChain(fr, fn)
+		if !inl {
 			return x.callContract(fr, st, fn, fc, args, pos)
 		}
 	}
-	if len(fn.Blocks) > 0 && fr.depth < x.maxInline && !x.inChain(fr, fn) && (inModule(fn) || x.inlineExt[full]) {
+	maxIn := x.maxInline
+	if x.preferInline {
+		maxIn += 2
+	}
+	if len(fn.Blocks) > 0 && fr.depth < maxIn && !x.inChain(fr, fn) && (inModule(fn) || x.inlineExt[full]) {
 		chain := fn.Name()
 		if fr.chain != "" {
 			chain = fr.chain + ">" + fn.Name()
@@ -155,6 +161,7 @@ func (x *Exec) callFn(fr *Frame, st *State, fn *ssa.Function, args []Value, bind
 func (x *Exec) unknownCall(fr *Frame, st *State, name string, sig *types.Signature, args []Value, clobberAll bool) []Outcome {
 	if clobberAll {
 		x.c.note("call to %s not inlined (recursive, too deep or no body) and has no contract: all heap havocked", name)
+		x.frameWrite(st, "*", nil)
 		x.havocAll(st)
 	} else {
 		x.c.note("A-ext: %s assumed to modify only memory directly referenced by its arguments; results unconstrained", name)
@@ -162,6 +169,7 @@ func (x *Exec) unknownCall(fr *Frame, st *State, name string, sig *types.Signatu
 			x.havocReachable(st, a)
 		}
 	}
+	x.bumpAlloc(st)
 	var rets []Value
 	if sig != nil {
 		for i := 0; i < sig.Results().Len(); i++ {
@@ -183,8 +191,13 @@ func (x *Exec) havocReachable(st *State, v Value) {
 		}
 	case *types.Interface:
 		// payload of statically known pointer type: havoc the pointee
+		id, known := 0, false
 		if v.L[0].IsLit {
-			id := int(v.L[0].Val.Int64())
+			id, known = int(v.L[0].Val.Int64()), true
+		} else if d, ok := x.dynTags[v.L[0].String()]; ok {
+			id, known = d, true
+		}
+		if known {
 			if id > 0 && id < len(x.c.tagTypes) {
 				if _, isPtr := x.c.tagTypes[id].Underlying().(*types.Pointer); isPtr {
 					x.havocReachable(st, Value{T: x.c.tagTypes[id], L: []*Term{v.L[1]}})
@@ -416,12 +429,12 @@ func contractKey(fn *ssa.Function) string {
 func (x *Exec) callContract(fr *Frame, st *State, fn *ssa.Function, fc *FuncContract, args []Value, pos token.Pos) []Outcome {
 	x.usedContracts[contractKey(fn)] = true
 	pre := st.clone()
-	cfr := &Frame{fn: fn, env: map[ssa.Value]Value{}, names: map[string]ssa.Value{}, loopSnap: map[*ssa.BasicBlock]*loopSnap{}, fc: fc, entry: pre, args: args, depth: fr.depth + 1}
+	cfr := &Frame{fn: fn, env: map[ssa.Value]Value{}, names: map[string]ssa.Value{}, loopSnap: map[*ssa.BasicBlock]*loopSnap{}, loopIter: map[*ssa.BasicBlock]int{}, fc: fc, entry: pre, args: args, depth: fr.depth + 1}
 	for i, p := range fn.Params {
 		cfr.env[p] = args[i]
 		cfr.names[p.Name()] = p
 	}
-	x.applyDyn(cfr, st, fc)
+	x.applyDyn(cfr, st, fc, fr, x.src(fr.fn, pos, "call")+"~"+fn.Name())
 	label := fn.Name()
 	for _, rq := range fc.Requires {
 		v := x.evalSpec(&specScope{x: x, fr: cfr, st: st, old: pre}, rq.Expr)
@@ -430,6 +443,7 @@ func (x *Exec) callContract(fr *Frame, st *State, fn *ssa.Function, fc *FuncCont
 	}
 	// frame
 	if fc.ModAll {
+		x.frameWrite(st, "*", nil)
 		x.havocAll(st)
 	} else {
 		for _, m := range fc.Modifies {
@@ -437,6 +451,7 @@ func (x *Exec) callContract(fr *Frame, st *State, fn *ssa.Function, fc *FuncCont
 		}
 	}
 	// results
+	x.bumpAlloc(st)
 	var rets []Value
 	res := fn.Signature.Results()
 	scope := &specScope{x: x, fr: cfr, st: st, old: pre, results: map[string]Value{}}
@@ -475,8 +490,9 @@ func (x *Exec) havocModifies(cfr *Frame, st *State, pre *State, target Expr) {
 	x.havocReachable(st, v)
 }
 
-func (x *Exec) applyDyn(fr *Frame, st *State, fc *FuncContract) {
-	for pname, tname := range fc.Dyn {
+func (x *Exec) applyDyn(fr *Frame, st *State, fc *FuncContract, caller *Frame, where string) {
+	for _, pname := range sortedKeys(fc.Dyn) {
+		tname := fc.Dyn[pname]
 		sv, ok := fr.names[pname]
 		if !ok {
 			unsup("dyn: unknown parameter %s", pname)
@@ -487,8 +503,12 @@ func (x *Exec) applyDyn(fr *Frame, st *State, fc *FuncContract) {
 			unsup("dyn: unknown type %s", tname)
 		}
 		id := x.c.typeTag(T)
-		st.assume(Eq(v.L[0], IntLit(int64(id))))
-		st.assume(Not(Eq(v.L[1], IntLit(0))))
+		cond := And(Eq(v.L[0], IntLit(int64(id))), Not(Eq(v.L[1], IntLit(0))))
+		if caller != nil {
+			// at a call site the dynamic type is a precondition to establish
+			x.oblige(caller, st, "pre", where+":dyn_"+pname, token.NoPos, cond)
+		}
+		st.assume(cond)
 		x.dynTags[v.L[0].String()] = id
 	}
 }
